@@ -1,6 +1,8 @@
 /-
   C08 — save is pure and deterministic; re-saving a loaded image reproduces it.
 -/
+import CSD.Generated.Bodies
+import CSD.Model.SourceText
 import CSD.Generated.Fields
 import CSD.Generated.Dispatch
 import CSD.Lemmas.PFCMeta
@@ -38,5 +40,15 @@ theorem resave_layout_and_tag (k : Kind) : saveFields = loadFields ∧ saveTags 
 /-- `resave_bytes_partial`: byte equality `save (load (save d)) = save d` is proved above for PFC
 and compared on every other kind by the correspondence stream (it fails for the recorded finding K5). -/
 example : validDict [[0x61], [0x62]] = true := by decide
+
+/-- The models this file's theorems are about were written against the current text of the C++
+functions they mirror (`CSD/Generated/Bodies.lean` is re-extracted from the sources on every run,
+`CSD/Model/SourceText.lean` is what was reviewed): an edit of one of these functions breaks this
+obligation even if no generated input tells the behaviours apart. -/
+theorem models_match_source_text :
+    Generated.body_PFC_save = SourceText.body_PFC_save ∧
+    Generated.body_PFC_load = SourceText.body_PFC_load ∧
+    Generated.body_LogSequence_load = SourceText.body_LogSequence_load ∧
+    Generated.body_LogSequence_save = SourceText.body_LogSequence_save := ⟨rfl, rfl, rfl, rfl⟩
 
 end CSD.Props.C08
